@@ -69,6 +69,41 @@ class Histories(_Base):
         return dict(dialect=d.choice(['new', 'old']), specs=specs)
 
 
+class GdbMode(_Base):
+    """the same histories as libwayland closures through the real GDB plugin on the gdb stand-in, dispatched from several threads:
+    lifetimes, annotations and lifespans must be the model's in GDB mode too"""
+    name = 'gdb-mode'
+    kind = 'given'
+
+    def examples(self, tier):
+        return 100 if tier == 'quick' else 14 * 800
+
+    def gen(self, d, tier):
+        specs = histgen.history(d, nconn=d.int(1, 2), nmsg=d.int(5, 36), tagged=True, profile=dict(reuse=0.8, server_reuse=0.6, weights=dict(
+            delete=26, bind=12, message=34, server_event=14, sync=8, retype=6)))
+        return dict(dialect='gdb-shaped', specs=specs, threads=[d.choice([1, 1, 2, 3]) for _ in range(d.int(1, 6))])
+
+    def execute(self, case):
+        from ..runner import Result
+        res = Result()
+        res.evals = 0
+        tr = tracker.GdbTracker('', case.get('threads'))
+        try:
+            for spec in case['specs']:
+                try:
+                    msg, rec = tr.apply(spec)
+                except tracker.GdbModeLost as e:
+                    res.bad('gdb-mode:message-lost', str(e))
+                    break
+                for chk in CHECKS:
+                    chk(tr, msg, rec, res, ':gdb-mode')
+        finally:
+            tr.close()
+        self.finish(case, res)
+        if any(t != 1 for t in case.get('threads') or []): res.label('several-threads')
+        return res
+
+
 class C03(Prop):
     id = 'C03'
     rule = ('Hypothesis rule-based machine (and whole generated histories) over client- and server-side logs with non-decreasing microsecond '
@@ -78,7 +113,7 @@ class C03(Prop):
             'earlier time, or a server-range reuse; distinct by SHA-1 of the spec list.')
     assumptions = ['well-formed histories as constructed by histgen; timestamps non-decreasing, no 32-bit wrap-around',
                    'lifespans: exact integer microseconds in the model; shown value may differ by 1 in the last printed digit']
-    stages = [Machine(), Histories()]
+    stages = [Machine(), Histories(), GdbMode()]
 
 
 PROP = C03()
